@@ -594,3 +594,221 @@ Proof.
   revert causes H. induction ids as [|i t IH]; intros [|c tc] H; cbn in *; try discriminate; auto.
   rewrite (IH tc) by lia. lia.
 Qed.
+
+(* ------------------------------------------------------------------ *)
+(* exact left inverse: when UnMarshal succeeds, the input is the canonical
+   encoding of the result, followed by a trailer that is empty, a dangling
+   identifier (2 octets), or a dangling identifier with a non-zero length octet
+   (3 octets) -- the two incomplete last units the reader drops silently. *)
+
+Definition trailer (tl : bytes) : Prop :=
+  tl = [] \/ length tl = 2%nat \/ (length tl = 3%nat /\ nth 2 tl 0 <> 0).
+
+Definition canon (rest : bytes) (l : list pcu) : Prop :=
+  exists tl, rest = marshal_units l ++ tl /\ trailer tl.
+
+Definition loop_inv3 (st : PCOReadingState) (cur : option pcu) (rest : bytes) (l : list pcu) : Prop :=
+  match st with
+  | ReadingID => canon rest l
+  | ReadingLength =>
+      forall c, cur = Some c -> pcu_contents c = [] ->
+      forall a b, pcu_id c = be16 a b -> a < 256 -> b < 256 -> canon (a :: b :: rest) l
+  | ReadingContent =>
+      forall c, cur = Some c -> pcu_contents c = [] ->
+      if pcu_len c =? 0 then canon rest l
+      else forall a b, pcu_id c = be16 a b -> a < 256 -> b < 256 ->
+           canon (a :: b :: pcu_len c :: rest) l
+  end.
+
+Lemma hi_lo_be16 a b : a < 256 -> b < 256 -> hi8 (be16 a b) = a /\ lo8 (be16 a b) = b.
+Proof. unfold hi8, lo8, be16. intros. lia. Qed.
+
+Lemma loop_inv3_exit st cur rest : rest = [] -> loop_inv3 st cur rest [].
+Proof.
+  intros ->. destruct st; cbn [loop_inv3].
+  - exists []. split; [reflexivity|left; reflexivity].
+  - intros c _ _ a b _ _ _. exists [a; b]. split; [reflexivity|right; left; reflexivity].
+  - intros c _ _. destruct (N.eqb_spec (pcu_len c) 0) as [Hz|Hz].
+    + exists []. split; [reflexivity|left; reflexivity].
+    + intros a b _ _ _. exists [a; b; pcu_len c]. split; [reflexivity|].
+      right; right. split; [reflexivity|exact Hz].
+Qed.
+
+Lemma loop_canon fuel : forall n st cur rest l,
+  n = Z.of_nat (length rest) -> bytes_ok rest ->
+  loop fuel n st cur rest = Ok (l, false) -> loop_inv3 st cur rest l.
+Proof.
+  induction fuel as [|f IH]; intros n st cur rest l Hn Hok H.
+  - destruct (Z.leb_spec n 0) as [Hle|Hgt].
+    + rewrite loop_done in H by assumption. inversion H; subst.
+      apply loop_inv3_exit. destruct rest; [reflexivity|cbn [length] in Hle; lia].
+    + cbn [loop] in H. destruct (Z.leb_spec n 0); try lia. discriminate.
+  - destruct (Z.leb_spec n 0) as [Hle|Hgt].
+    + rewrite loop_done in H by assumption. inversion H; subst.
+      apply loop_inv3_exit. destruct rest; [reflexivity|cbn [length] in Hle; lia].
+    + destruct st; cbn [loop_inv3].
+      * destruct rest as [|a [|b t]];
+          try (rewrite loop_ID_short in H by (cbn [length]; lia); discriminate).
+        rewrite loop_ID_step in H by assumption.
+        pose proof (Forall_inv Hok) as Ha. pose proof (Forall_inv (Forall_inv_tail Hok)) as Hb.
+        apply IH in H; [|cbn [length] in Hn; lia|exact (Forall_inv_tail (Forall_inv_tail Hok))].
+        cbn [loop_inv3] in H. eapply H; try reflexivity; assumption.
+      * intros c -> Hc a b Hid Ha Hb.
+        destruct rest as [|x t]; [rewrite loop_Len_short in H by assumption; discriminate|].
+        rewrite loop_Len_step in H by assumption.
+        destruct (loop f (n - 1)%Z ReadingContent _ t) as [[l' e']| | |] eqn:E; try discriminate.
+        cbn [obind fst snd] in H.
+        assert (He : e' = false) by (destruct (x =? 0); inversion H; reflexivity). subst e'.
+        apply IH in E; [|cbn [length] in Hn; lia|exact (Forall_inv_tail Hok)].
+        cbn [loop_inv3] in E. specialize (E _ eq_refl Hc). cbn [pcu_len pcu_id] in E.
+        destruct (N.eqb_spec x 0) as [->|Hx].
+        -- inversion H; subst. destruct E as (tl & -> & Htl).
+           exists tl. split; [|exact Htl].
+           cbn [marshal_units marshal_unit pcu_id pcu_len pcu_contents]. rewrite Hc, Hid.
+           unfold marshal_unit. cbn [pcu_id pcu_len pcu_contents app].
+           destruct (hi_lo_be16 a b Ha Hb) as [-> ->]. reflexivity.
+        -- inversion H; subst. apply E; assumption.
+      * intros c -> Hc.
+        destruct (N.eqb_spec (pcu_len c) 0) as [Hz|Hz].
+        -- rewrite loop_Content_zero in H by assumption.
+           apply IH in H; [exact H|lia|exact Hok].
+        -- intros a b Hid Ha Hb.
+           destruct (read_n_cases rest (N.to_nat (pcu_len c))) as [(x & r & E)|E].
+           ++ destruct (read_n_ok _ _ _ _ E) as [-> Hl].
+              rewrite loop_Content_pos in H by (try assumption; lia).
+              destruct (loop f _ ReadingID _ r) as [[l' e']| | |] eqn:E2; try discriminate.
+              cbn [obind fst snd] in H.
+              assert (He : e' = false) by (inversion H; reflexivity). subst e'.
+              apply IH in E2; [|rewrite app_length in Hn; lia|].
+              ** inversion H; subst. cbn [loop_inv3] in E2. destruct E2 as (tl & -> & Htl).
+                 exists tl. split; [|exact Htl].
+                 cbn [marshal_units marshal_unit pcu_id pcu_len pcu_contents]. rewrite Hid.
+                 unfold marshal_unit. cbn [pcu_id pcu_len pcu_contents app].
+                 destruct (hi_lo_be16 a b Ha Hb) as [-> ->].
+                 rewrite <- app_assoc. reflexivity.
+              ** unfold bytes_ok in *. apply Forall_app in Hok. apply Hok.
+           ++ cbn [loop] in H. destruct (Z.leb_spec n 0); try lia.
+              destruct (N.ltb_spec 0 (pcu_len c)); try lia.
+              rewrite E in H. discriminate.
+Qed.
+
+Lemma pco_exact_inverse bs l : bytes_ok bs -> UnMarshal bs = Ok l ->
+  exists x tl, bs = x :: marshal_units l ++ tl /\ trailer tl.
+Proof.
+  intros Hok. unfold UnMarshal, UnMarshalFull, UnMarshalFull_fuel.
+  destruct bs as [|x rest]; [cbn; discriminate|].
+  change (read_n (x :: rest) 1) with (Ok ([x], rest)). cbv iota beta.
+  destruct (loop _ _ ReadingID None rest) as [[l' e']| | |] eqn:E; try discriminate.
+  cbn [obind fst snd app]. destruct e'; [discriminate|].
+  intro H; inversion H; subst.
+  apply loop_canon in E; [|cbn [length]; lia|exact (Forall_inv_tail Hok)].
+  cbn [loop_inv3] in E. destruct E as (tl & -> & Htl).
+  exists x, tl. split; [reflexivity|exact Htl].
+Qed.
+
+(* the result of a successful parse is well-formed, so it can be serialised again *)
+Lemma rchain_wf l : forall rest, bytes_ok rest -> rchain rest l -> wf_pco l.
+Proof.
+  induction l as [|u t IH]; intros rest Hok H; [constructor|].
+  cbn [rchain] in H. destruct H as (a & b & rest' & -> & Hid & Hl & Ht).
+  unfold bytes_ok in Hok.
+  pose proof (Forall_inv Hok) as Ha. pose proof (Forall_inv (Forall_inv_tail Hok)) as Hb.
+  pose proof (Forall_inv (Forall_inv_tail (Forall_inv_tail Hok))) as Hlen.
+  pose proof (Forall_inv_tail (Forall_inv_tail (Forall_inv_tail Hok))) as Hrest.
+  apply Forall_app in Hrest as [_ Hrest'].
+  unfold is_byte in *. constructor.
+  - unfold wf_unit. rewrite Hid. unfold be16. repeat split; lia.
+  - eapply IH; eassumption.
+Qed.
+
+Lemma pco_result_wf bs l e : bytes_ok bs -> UnMarshalFull [] bs = Ok (l, e) -> wf_pco l.
+Proof.
+  intros Hok. unfold UnMarshalFull, UnMarshalFull_fuel.
+  destruct bs as [|x rest].
+  - cbn. intro H; inversion H; subst. constructor.
+  - change (read_n (x :: rest) 1) with (Ok ([x], rest)). cbv iota beta.
+    destruct (loop _ _ ReadingID None rest) as [[l' e']| | |] eqn:E; try discriminate.
+    cbn [obind fst snd app]. intro H; inversion H; subst.
+    apply loop_rchain in E. cbn [loop_inv] in E.
+    eapply rchain_wf; [exact (Forall_inv_tail Hok)|exact E].
+Qed.
+
+(* conversely, every canonical encoding followed by such a trailer is accepted *)
+Lemma loop_trailer fuel n cur tl : trailer tl ->
+  n = Z.of_nat (length tl) -> (length tl <= fuel)%nat ->
+  loop fuel n ReadingID cur tl = Ok ([], false).
+Proof.
+  intros [->|[H2|[H3 Hc]]] Hn Hf.
+  - apply loop_done. cbn in Hn. lia.
+  - destruct tl as [|a [|b [|c t]]]; cbn [length] in H2; try lia.
+    destruct fuel as [|f]; [cbn [length] in Hf; lia|].
+    rewrite loop_ID_step by (cbn [length] in Hn; lia).
+    apply loop_done. cbn [length] in Hn. lia.
+  - destruct tl as [|a [|b [|c [|d t]]]]; cbn [length] in H3; try lia.
+    cbn [nth] in Hc.
+    destruct fuel as [|[|f]]; cbn [length] in Hf; try lia.
+    rewrite loop_ID_step by (cbn [length] in Hn; lia).
+    rewrite loop_Len_step by (cbn [length] in Hn; lia).
+    rewrite loop_done by (cbn [length] in Hn; lia).
+    cbn [obind fst snd]. destruct (N.eqb_spec c 0); [contradiction|reflexivity].
+Qed.
+
+Lemma loop_marshal_units_trailer l tl : trailer tl -> forall fuel n cur,
+  wf_pco l ->
+  n = Z.of_nat (length (marshal_units l ++ tl)) ->
+  (length (marshal_units l ++ tl) <= fuel)%nat ->
+  loop fuel n ReadingID cur (marshal_units l ++ tl) = Ok (l, false).
+Proof.
+  intro Htl. induction l as [|u t IH]; intros fuel n cur Hwf Hn Hf.
+  - cbn [marshal_units app] in *. apply loop_trailer; assumption.
+  - pose proof (Forall_inv Hwf) as Hu. pose proof (Forall_inv_tail Hwf) as Ht.
+    destruct u as [id len cts]. destruct Hu as (Hid & Hlen & Hc). cbn [pcu_id pcu_len pcu_contents] in *.
+    cbn [marshal_units marshal_unit pcu_id pcu_len pcu_contents app] in *.
+    rewrite <- !app_assoc in *. cbn [app] in *.
+    cbn [length] in Hf. rewrite app_length in Hf.
+    assert (Hn' : n = (3 + Z.of_nat (length cts) + Z.of_nat (length (marshal_units t ++ tl)))%Z).
+    { rewrite Hn. cbn [length]. rewrite app_length. lia. }
+    clear Hn.
+    destruct fuel as [|f1]; [lia|]. destruct f1 as [|f2]; [lia|]. destruct f2 as [|f3]; [lia|].
+    rewrite loop_ID_step by lia.
+    rewrite loop_Len_step by lia. cbn [pcu_id pcu_contents].
+    rewrite be16_hi_lo by assumption.
+    destruct cts as [|c0 cts'].
+    + cbn [length] in *. subst len. cbn [app].
+      destruct (marshal_units t ++ tl) as [|y ys] eqn:Erest.
+      * rewrite loop_done by (cbn [length] in Hn'; lia).
+        apply app_eq_nil in Erest as [Et _]. apply marshal_units_nil in Et. subst t. reflexivity.
+      * rewrite loop_Content_zero; [|cbn [length] in Hn'; lia|reflexivity].
+        rewrite <- Erest in *. rewrite (IH f3 _ _ Ht) by lia. reflexivity.
+    + assert (Hl0 : len <> 0) by (subst len; cbn [length]; lia).
+      rewrite loop_Content_pos; cbn [pcu_len pcu_id]; [|lia|lia|lia].
+      rewrite (IH f3 _ _ Ht) by lia.
+      cbn [obind fst snd].
+      destruct (N.eqb_spec len 0); [contradiction|]. reflexivity.
+Qed.
+
+Lemma pco_accepts x l tl : wf_pco l -> trailer tl ->
+  UnMarshal (x :: marshal_units l ++ tl) = Ok l.
+Proof.
+  intros Hwf Htl. unfold UnMarshal, UnMarshalFull, UnMarshalFull_fuel.
+  change (read_n (x :: marshal_units l ++ tl) 1) with (Ok ([x], marshal_units l ++ tl)).
+  cbv iota beta.
+  rewrite (loop_marshal_units_trailer l tl Htl _ _ None Hwf).
+  - reflexivity.
+  - cbn [length]. lia.
+  - cbn [length]. lia.
+Qed.
+
+(* the exact set of byte strings UnMarshal accepts, and what it returns *)
+Lemma pco_accepts_iff bs l : bytes_ok bs ->
+  (UnMarshal bs = Ok l <->
+   wf_pco l /\ exists x tl, bs = x :: marshal_units l ++ tl /\ trailer tl).
+Proof.
+  intro Hok. split.
+  - intro H. split; [|apply pco_exact_inverse; assumption].
+    unfold UnMarshal in H.
+    destruct (UnMarshalFull [] bs) as [[l' e]| | |] eqn:E; try discriminate.
+    cbn [obind fst snd] in H. destruct e; [discriminate|]. inversion H; subst.
+    eapply pco_result_wf; eassumption.
+  - intros (Hwf & x & tl & -> & Htl). apply pco_accepts; assumption.
+Qed.
